@@ -175,6 +175,14 @@ def _agree(c, fl, ex, market, strategy, tag):
     lc.blotter_coherence(c, market, list(market.blotter), tag=tag)
 
 
+def _attribution(c, market, tag):
+    """what the stream said about one bet is never stored on an order that carries another bet id"""
+    for o in market.blotter:
+        co = o.responses.current_order
+        if co is not None and o.bet_id is not None:
+            c.ob("%s.stream-update-attributed-to-own-bet" % tag, co.bet_id == o.bet_id, order_bet=o.bet_id, update_bet=co.bet_id)
+
+
 def h11a(c, K=3, async_place=False):
     """K symbolic steps from {requests, delivery of an outstanding response, exchange-side fill / lapse, current or stale snapshot}
     against a bet table; at quiescence (all responses delivered, latest snapshot processed twice) flumine agrees with the exchange"""
@@ -228,6 +236,7 @@ def h11a(c, K=3, async_place=False):
                     snap = ex.snapshot()
                     old_snapshots.append(snap)
                     fl._process_current_orders(cm.current_orders_event(client, snap))
+                    _attribution(c, market, "step%d" % k)
                     c.cover("snapshot")
                 elif act == "stale-snapshot":
                     if old_snapshots:
@@ -245,6 +254,7 @@ def h11a(c, K=3, async_place=False):
                 # nothing changed since the last publication: the stream stays silent, flumine has what it will ever get
                 c.cover("latest-snapshot-processed-before-the-last-response")
                 c.tag("stream_silent_at_the_end", True)
+        _attribution(c, market, "quiescent")
         _agree(c, fl, ex, market, strategy, "quiescent")
         if len(ex.bets) > 1:
             c.cover("replaced-bet")
